@@ -212,7 +212,12 @@ def monC02 (h : Hist) : Option String :=
       let strictG := match h.ghostAt ri.n with
         | some g => Spec.strictValidate Spec.rfc parse ri.req.header g now
         | none => false
-      let strict := Spec.strictValidate Spec.rfc parse ri.req.header s now
+      -- "requires validation" when the exchange starts, or — if the origin was asked and did not validate — when its
+      -- answer arrives (a must-revalidate response may run out while the origin is being asked)
+      let strict := Spec.strictValidate Spec.rfc parse ri.req.header s now ||
+        (match x.fgCalls.getLast? with
+         | some c => Spec.strictValidate Spec.rfc parse ri.req.header s c.t1
+         | none => false)
       let soft := Spec.requestMaxAgeExceeded Spec.rfc parse ri.req.header s now
       let servedStored := x.fromStore && x.token == tokenOf e.resp.body
       -- a validation request, when one is sent for this entry, is the client's request + validators
